@@ -19,6 +19,10 @@ ARC_BOUNDS = [0, 1, 39, 127, 128, 16383, 16384, 2 ** 21 - 1, 2 ** 21, 2 ** 28 - 
 def gen_arcs(rng, first=None, n=None):
     a0 = rng.choice([0, 1, 1, 1, 2]) if first is None else first
     a1 = rng.randrange(40)
+    # (now and then the longest names the SMI allows: 126 / 127 / 128 sub-identifiers; small arcs keep them short)
+    if n is None and rng.random() < 0.03:
+        k = rng.choice([124, 125, 126])
+        return (a0, a1) + tuple(rng.randrange(128) for _ in range(k))
     k = rng.randrange(0, 10) if n is None else n
     return (a0, a1) + tuple(rng.choice(ARC_BOUNDS) if rng.random() < 0.4 else rng.getrandbits(rng.randrange(1, 33))
                             for _ in range(k))
